@@ -18,7 +18,7 @@ import (
 // Nonces / datagrams of requests that must be refused start with 'X', all others with 'L': a backend that
 // ever sees an 'X' was contacted for a refused visitor.
 
-const perEnvReal = 41
+const perEnvReal = 43
 
 type nonceBackend struct {
 	id string
@@ -60,6 +60,7 @@ type realEnv struct {
 	bind    map[string]int           // visitor name -> local port
 	stcpVis []string
 	slow    *stallBackend
+	delay   map[string]*delayBackend // proxy name -> backend that answers "slow" datagrams late (dgram.go)
 	err     error
 }
 
@@ -78,7 +79,7 @@ func getRealEnv(i int) *realEnv {
 }
 
 func setupReal(e *env) *realEnv {
-	re := &realEnv{e: e, tcp: map[string]*nonceBackend{}, udp: map[string]*h.UDPBackend{}, bind: map[string]int{}}
+	re := &realEnv{e: e, tcp: map[string]*nonceBackend{}, udp: map[string]*h.UDPBackend{}, bind: map[string]int{}, delay: map[string]*delayBackend{}}
 	common := func(user string) string {
 		return fmt.Sprintf("serverAddr = \"127.0.0.1\"\nserverPort = %d\nuser = %q\nauth.token = %q\nloginFailExit = false\ntransport.tcpMux = %v\n",
 			e.port, user, token, e.tcpMux)
@@ -150,6 +151,19 @@ func setupReal(e *env) *realEnv {
 		re.slow = sb
 		fmt.Fprintf(&own, "\n[[proxies]]\nname = \"slow\"\ntype = \"stcp\"\nsecretKey = \"sk-slow\"\nlocalIP = \"127.0.0.1\"\nlocalPort = %d\n", sb.b.Port)
 		proxyNames = append(proxyNames, "own.slow")
+	}
+	for i, o := range []struct{ pe, pc, ve, vc bool }{{false, false, false, false}, {true, false, false, true}} {
+		db, err := startDelayBackend()
+		if err != nil {
+			re.err = err
+			return re
+		}
+		name := fmt.Sprintf("ud%d", i)
+		re.delay[name] = db
+		fmt.Fprintf(&own, "\n[[proxies]]\nname = %q\ntype = \"sudp\"\nsecretKey = %q\nlocalIP = \"127.0.0.1\"\nlocalPort = %d\ntransport.useEncryption = %v\ntransport.useCompression = %v\n",
+			name, "sk-"+name, db.port, o.pe, o.pc)
+		proxyNames = append(proxyNames, "own."+name)
+		addVisitor(&visA, "v"+name, "sudp", name, "sk-"+name, false, o.ve, o.vc)
 	}
 	addVisitor(&visA, "vslow", "stcp", "slow", "sk-slow", false, false, false)
 	addVisitor(&visA, "a-ownonly-badkey", "stcp", "ownonly", "sk-ownonlY", false, false, false)
@@ -224,8 +238,12 @@ func realCase(c *h.Case, k int) {
 		realDgram(c, re, "a-uonly-badkey", "uonly", false, false, false, "sudp visitor of the owner's user with an empty key", rng)
 	case j == 39:
 		realDgram(c, re, "b-uonly", "uonly", false, false, false, "sudp visitor with the right key, user eve, default allow-list", rng)
-	default:
+	case j == 40:
 		realDgram(c, re, "b-uopen", "uopen", true, false, true, "sudp visitor of user eve, allow-list *", rng)
+	case j == 41:
+		realDgramShared(c, re, "vud0", "ud0", "two users and bursts on one sudp visitor, no enc/comp", rng)
+	default:
+		realDgramShared(c, re, "vud1", "ud1", "two users and bursts on one sudp visitor, proxy enc, visitor comp", rng)
 	}
 }
 
@@ -444,6 +462,9 @@ func realFinal() {
 		}
 		if re.slow != nil {
 			re.slow.b.Close()
+		}
+		for _, db := range re.delay {
+			db.conn.Close()
 		}
 	}
 }
